@@ -577,4 +577,712 @@ Section Under.
     assert (In n ("" :: "buckets" :: b :: C')%list) by (rewrite S2; apply in_or_app; right; left; reflexivity).
     destruct H as [H|[H|[H|H]]]; try (subst n; assumption). apply O. exact H.
   Qed.
+
+  (* ----- percent decoding ----- *)
+  Lemma pct_decode_nopct : forall a s, no_pct a = true ->
+    pct_decode (a ++ s) = match pct_decode s with Some t => Some (a ++ t) | None => None end.
+  Proof.
+    induction a as [|c a IH]; intros s H; simpl.
+    - destruct (pct_decode s); reflexivity.
+    - simpl in H. apply andb_true_iff in H. destruct H as [Hc Ha]. apply negb_true_iff in Hc.
+      rewrite Hc. rewrite (IH s Ha). destruct (pct_decode s); reflexivity.
+  Qed.
+
+  Lemma pct_decode_slash : forall s,
+    pct_decode (String slash s) = match pct_decode s with Some t => Some (String slash t) | None => None end.
+  Proof. intros s. reflexivity. Qed.
+
+  Lemma no_pct_app : forall a b, no_pct a = true -> no_pct b = true -> no_pct (a ++ b) = true.
+  Proof. induction a as [|c a IH]; intros b Ha Hb; simpl; [exact Hb|]. simpl in Ha. apply andb_true_iff in Ha. destruct Ha as [H1 H2]. rewrite H1. simpl. apply IH; assumption. Qed.
+
+  Lemma no_pct_bucket_dir : forall b, no_pct b = true -> no_pct (bucket_dir b) = true.
+  Proof. intros b H. unfold bucket_dir, buckets_path. apply no_pct_app; [reflexivity|]. apply no_pct_app; [reflexivity | exact H]. Qed.
+
+  (* decoding a path  <bucket dir><tail starting with "/">  keeps the bucket directory *)
+  Lemma decode_under : forall b pre tail r, good b -> under b pre -> no_pct pre = true ->
+    pct_decode (pre ++ String slash tail) = Some r -> okl (split_slash r) -> under b r.
+  Proof.
+    intros b pre tail r G U NP D O.
+    rewrite (pct_decode_nopct pre _ NP) in D. rewrite pct_decode_slash in D.
+    destruct (pct_decode tail) as [t|]; [|discriminate]. inversion D; subst r.
+    apply under_app; [exact U|]. rewrite split_app_slash in O. exact (okl_app_r _ _ O).
+  Qed.
+
+  (* ----- object routes ----- *)
+  Lemma norm_object_form : forall o, okl (split_slash o) ->
+    exists k, norm_object o = String slash k /\ okl (split_slash k).
+  Proof.
+    intros o O. unfold norm_object. destruct (starts_with_slash o) eqn:E.
+    - destruct (starts_with_slash_spec _ E) as [r Er]. subst o. exists r. split; [reflexivity|].
+      change (String slash r) with ("" ++ String slash r) in O. rewrite split_app_slash in O. exact (okl_app_r _ _ O).
+    - exists o. split; [reflexivity | exact O].
+  Qed.
+
+  Lemma under_opath : forall b k, good b -> okl (split_slash k) -> under b (bucket_dir b ++ String slash k).
+  Proof. intros b k G O. apply under_app; [apply under_bucket_dir; exact G | exact O]. Qed.
+
+  (* GLookup + the UpdateEntry that follows it, for the DirAndName of an object path *)
+  Lemma dn_lookup_update_cok : forall fx b k, good b -> bad b = false -> okl (split_slash k) ->
+    let P := bucket_dir b ++ String slash k in
+    Forall (cok b) (GLookup (fst (dir_and_name P)) (snd (dir_and_name P)) ::
+                    update_after_lookup fx (fst (dir_and_name P)) (snd (dir_and_name P))).
+  Proof.
+    intros fx b k G Bb O P.
+    pose proof (opath_split b k G) as S.
+    destruct (dn_under b P (split_slash k) S (split_nonempty k) O) as [Ud [On EP]].
+    assert (Hn : okl (split_slash (snd (dir_and_name P)))).
+    { assert (N : no_slash (snd (dir_and_name P)) = true).
+      { unfold dir_and_name. destruct (rcut_slash P) as [[d0 n]|] eqn:R; [|reflexivity].
+        destruct (rcut_slash_spec _ _ _ R) as [_ N]. destruct (d0 =? ""); exact N. }
+      rewrite (no_slash_split _ N). exact On. }
+    constructor; [apply lookup_cok; assumption|].
+    unfold update_after_lookup. destruct (exists_at fx _); [|constructor].
+    constructor; [|constructor]. unfold cok. simpl. left.
+    apply under_app; [exact Ud|].
+    rewrite (join_dn_clean P (under_rooted b P (under_opath b k G O))).
+    apply (entry_name_ok b); [exact G | exact Bb | apply under_opath; assumption].
+  Qed.
+
+  Lemma batch_cok : forall b key, good b -> okl (split_slash key) ->
+    cok b (let '(d, n) := batch_dir_name b key in GDelete d n false).
+  Proof.
+    intros b key G O. unfold batch_dir_name.
+    destruct (rcut_slash key) as [[d n]|] eqn:R.
+    - destruct (negb (d =? "") && negb (n =? "")).
+      + pose proof (rcut_split _ _ _ R) as S. rewrite S in O.
+        apply delete_cok.
+        * apply under_opath; [exact G | exact (okl_app_l _ _ O)].
+        * destruct (rcut_slash_spec _ _ _ R) as [_ N]. rewrite (no_slash_split n N). exact (okl_app_r _ _ O).
+      + apply delete_cok; [apply under_bucket_dir; exact G | exact O].
+    - apply delete_cok; [apply under_bucket_dir; exact G | exact O].
+  Qed.
+
+  Lemma batch_dir_under : forall b key, good b -> okl (split_slash key) -> under b (fst (batch_dir_name b key)).
+  Proof.
+    intros b key G O. unfold batch_dir_name.
+    destruct (rcut_slash key) as [[d n]|] eqn:R; [|apply under_bucket_dir; exact G].
+    destruct (negb (d =? "") && negb (n =? "")); [|apply under_bucket_dir; exact G].
+    pose proof (rcut_split _ _ _ R) as S. rewrite S in O. simpl fst.
+    apply under_opath; [exact G | exact (okl_app_l _ _ O)].
+  Qed.
+
+  (* doDeleteEmptyDirectories never leaves the bucket directory *)
+  Lemma purge_chain_cok : forall b fuel dir, good b -> under b dir -> Forall (cok b) (purge_chain fuel dir).
+  Proof.
+    intros b fuel. induction fuel as [|f IH]; intros dir G U; simpl; [constructor|].
+    destruct U as [C [E O]].
+    destruct (dir_and_name dir) as [parent name] eqn:DN.
+    destruct (parent =? buckets_path) eqn:EP; [constructor|].
+    assert (NE : C <> []).
+    { intros HC. subst C. apply str_eqb_false in EP. apply EP.
+      assert (HP : starts_with_slash dir = true) by exact (split_head_rooted _ _ _ E).
+      destruct (starts_with_slash_spec _ HP) as [r Er]. subst dir.
+      destruct (rcut_rooted r) as [d0 [n R]]. unfold dir_and_name in DN. rewrite R in DN.
+      pose proof (rcut_split _ _ _ R) as S. rewrite E in S.
+      change ["" ; "buckets"; b] with (["" ; "buckets"] ++ [b])%list in S. apply app_inj_tail in S. destruct S as [S1 S2].
+      assert (d0 = "/buckets") by (apply split_inj; rewrite <- S1; reflexivity). subst d0.
+      simpl in DN. inversion DN. reflexivity. }
+    destruct (dn_under b dir C E NE O) as [Ud [On EP2]]. rewrite DN in Ud, On, EP2. simpl in Ud, On, EP2.
+    constructor.
+    - apply delete_cok; [exact Ud|].
+      assert (N : no_slash name = true).
+      { unfold dir_and_name in DN. destruct (rcut_slash dir) as [[d0 n]|] eqn:R.
+        - destruct (rcut_slash_spec _ _ _ R) as [_ N]. destruct (d0 =? ""); inversion DN; subst; exact N.
+        - inversion DN. reflexivity. }
+      rewrite (no_slash_split _ N). exact On.
+    - apply IH; assumption.
+  Qed.
+
+  Lemma purge_candidates_cok : forall b keys, good b -> (forall k, In k keys -> okl (split_slash k)) ->
+    Forall (cok b) (purge_candidates b keys).
+  Proof.
+    intros b keys G H. unfold purge_candidates. apply Forall_forall. intros c Hc.
+    apply in_flat_map in Hc. destruct Hc as [k [Hk Hc]].
+    pose proof (purge_chain_cok b (S (List.length (split_slash (fst (batch_dir_name b k))))) (fst (batch_dir_name b k)) G
+                 (batch_dir_under b k G (H k Hk))) as F.
+    rewrite Forall_forall in F. apply F. exact Hc.
+  Qed.
+
+  Lemma within_forall : forall b l, Forall (cok b) l -> Forall (fun cc => cok (fst cc) (snd cc)) (within b l).
+  Proof. intros b l H. unfold within. apply Forall_forall. intros cc Hc. apply in_map_iff in Hc. destruct Hc as [c [E Hc]]. subst cc. simpl. rewrite Forall_forall in H. apply H. exact Hc. Qed.
+
+  Definition cokc (cc : ccall) : Prop := cok (fst cc) (snd cc).
+
+  Lemma src_object_form : forall s, exists o, snd (src_bucket_object s) = String slash o.
+  Proof.
+    intros s. unfold src_bucket_object. destruct (cut_slash (trim_leading_slash s)) as [[b0 o]|].
+    - exists o. reflexivity.
+    - exists "". reflexivity.
+  Qed.
+
+  Definition obj_hyp (q : req) : Prop :=
+    okl (split_slash (q_object q)) /\
+    okl (split_slash (dec1 (bucket_dir (q_bucket q) ++ norm_object (q_object q)))) /\
+    (q_src q <> "" -> good (src_bucket q) /\ okl (split_slash (dec1 (src_path q)))) /\
+    (forall k, In k (q_keys q) -> okl (split_slash k)).
+
+  (* the source side of the copy handlers *)
+  Lemma copy_src_cok : forall q sp,
+    (q_src q <> "" -> good (src_bucket q) /\ okl (split_slash (dec1 (src_path q)))) ->
+    (src_bucket q =? "") = false ->
+    pct_decode (src_path q) = Some sp ->
+    Forall cokc (within (src_bucket q) (http_calls MGet sp)).
+  Proof.
+    intros q sp HS NB D.
+    assert (NS : q_src q <> "").
+    { intros E. unfold src_bucket in NB. rewrite E in NB. discriminate. }
+    destruct (HS NS) as [G O].
+    apply within_forall. apply http_calls_cok.
+    unfold dec1 in O. rewrite D in O.
+    unfold src_path in D. unfold src_bucket in G.
+    destruct (src_object_form (dec1 (q_src q))) as [o Eo].
+    destruct (src_bucket_object (dec1 (q_src q))) as [sb so] eqn:ES. simpl in Eo, G. subst so.
+    unfold src_bucket. rewrite ES. simpl fst.
+    destruct (good_spec sb G) as [_ [_ [_ [_ NP]]]].
+    exact (decode_under sb (bucket_dir sb) o sp G (under_bucket_dir sb G) (no_pct_bucket_dir sb NP) D O).
+  Qed.
+
+  Lemma dst_decode_cok : forall b k dp, good b ->
+    okl (split_slash (dec1 (bucket_dir b ++ String slash k))) ->
+    pct_decode (bucket_dir b ++ String slash k) = Some dp ->
+    Forall cokc (within b (http_calls MPut dp)).
+  Proof.
+    intros b k dp G O D. apply within_forall. apply http_calls_cok.
+    unfold dec1 in O. rewrite D in O.
+    destruct (good_spec b G) as [_ [_ [_ [_ NP]]]].
+    exact (decode_under b (bucket_dir b) k dp G (under_bucket_dir b G) (no_pct_bucket_dir b NP) D O).
+  Qed.
+
+  Lemma gcreate_mkdir_eq : forall b k, buckets_path ++ "/" ++ (b ++ String slash k) = bucket_dir b ++ String slash k.
+  Proof.
+    intros b k. unfold bucket_dir, buckets_path.
+    rewrite (append_assoc "/buckets" ("/" ++ b) (String slash k)). reflexivity.
+  Qed.
+
+  Lemma calls_object_cok : forall fx q, good (q_bucket q) -> bad (q_bucket q) = false ->
+    object_route (q_route q) = true -> obj_hyp q -> Forall cokc (calls fx q).
+  Proof.
+    intros fx q G Bb OR [HO [HOD [HS HK]]].
+    destruct (norm_object_form (q_object q) HO) as [k [Ek Ok]].
+    pose proof (under_opath (q_bucket q) k G Ok) as UO.
+    pose proof (dn_lookup_update_cok fx (q_bucket q) k G Bb Ok) as DLU. cbv zeta in DLU.
+    unfold calls. rewrite Ek in *.
+    destruct (q_route q) eqn:ER; try discriminate OR.
+    - (* RPut *)
+      destruct (ends_with_slash (String slash k)).
+      + apply within_forall. constructor; [|constructor]. unfold cok, effective. left.
+        rewrite gcreate_mkdir_eq. exact UO.
+      + apply within_forall. apply http_calls_cok. exact UO.
+    - (* RGet *)
+      destruct (ends_with_slash (String slash k)); [constructor|].
+      apply within_forall. apply http_calls_cok. exact UO.
+    - apply within_forall. apply http_calls_cok. exact UO.
+    - apply within_forall. apply http_calls_cok. exact UO.
+    - (* RBatchDelete *)
+      apply within_forall. apply Forall_forall. intros c Hc. apply in_map_iff in Hc.
+      destruct Hc as [key [E Hk]]. subst c. apply batch_cok; [exact G | apply HK; exact Hk].
+    - (* RCopy *)
+      fold (src_bucket q).
+      destruct (src_bucket_object (match pct_decode (q_src q) with Some s => s | None => q_src q end)) as [sb so] eqn:ES.
+      assert (Esb : src_bucket q = sb) by (unfold src_bucket, dec1; rewrite ES; reflexivity).
+      assert (Esp : src_path q = bucket_dir sb ++ so) by (unfold src_path, dec1; rewrite ES; reflexivity).
+      match goal with |- Forall cokc (if ?c then _ else _) => destruct c end.
+      + destruct (dir_and_name (bucket_dir (q_bucket q) ++ String slash k)) as [d n] eqn:DN.
+        apply within_forall. simpl in DLU. exact DLU.
+      + destruct (sb =? "") eqn:E1; [constructor|].
+        match goal with |- Forall cokc (if ?c then _ else _) => destruct c end; [constructor|].
+        destruct (pct_decode (bucket_dir sb ++ so)) as [sp|] eqn:D1; [|constructor].
+        apply Forall_app. split.
+        * rewrite <- Esb. apply (copy_src_cok q sp HS); [rewrite Esb; exact E1 | rewrite Esp; exact D1].
+        * destruct (pct_decode (bucket_dir (q_bucket q) ++ String slash k)) as [dp|] eqn:D2; [|constructor].
+          exact (dst_decode_cok (q_bucket q) k dp G HOD D2).
+    - (* RGetTag *)
+      destruct (dir_and_name (bucket_dir (q_bucket q) ++ String slash k)) as [d n] eqn:DN.
+      apply within_forall. simpl in DLU. inversion DLU; subst. constructor; [assumption | constructor].
+    - (* RPutTag *)
+      destruct (dir_and_name (bucket_dir (q_bucket q) ++ String slash k)) as [d n] eqn:DN.
+      apply within_forall. simpl in DLU. exact DLU.
+    - (* RDelTag *)
+      destruct (dir_and_name (bucket_dir (q_bucket q) ++ String slash k)) as [d n] eqn:DN.
+      apply within_forall. simpl in DLU. inversion DLU; subst. constructor; [assumption | constructor].
+  Qed.
+
+  (* ----- multipart routes ----- *)
+  Lemma strip_one_spec : forall s, ends_with_slash s = true -> s = strip_one_trailing_slash s ++ "/".
+  Proof.
+    induction s as [|c r IH]; intros H; [discriminate|].
+    destruct r as [|c2 r2].
+    - simpl in H. apply ascii_eqb_true in H. subst c. reflexivity.
+    - change (ends_with_slash (String c (String c2 r2))) with (ends_with_slash (String c2 r2)) in H.
+      change (String c (String c2 r2) = String c (strip_one_trailing_slash (String c2 r2) ++ "/")).
+      rewrite <- (IH H). reflexivity.
+  Qed.
+
+  Lemma last_nonempty_in : forall l s, last_nonempty l = Some s -> In s l.
+  Proof.
+    intros l s H. unfold last_nonempty in H.
+    assert (K : forall l acc, fold_left (fun acc s => if s =? "" then acc else Some s) l acc = Some s -> In s l \/ acc = Some s).
+    { induction l0 as [|x l0 IH]; intros acc Hf; simpl in Hf; [right; exact Hf|].
+      destruct (IH _ Hf) as [K|K]; [left; right; exact K|].
+      destruct (x =? ""); [right; exact K | inversion K; left; left; reflexivity]. }
+    destruct (K l None H) as [K1|K1]; [exact K1 | discriminate].
+  Qed.
+
+  Lemma okl_trim : forall s, okl (split_slash s) -> okl (split_slash (trim_leading_slash s)).
+  Proof.
+    intros s O. destruct s as [|c r]; [exact O|]. simpl. destruct (Ascii.eqb c slash) eqn:E; [|exact O].
+    apply ascii_eqb_true in E. subst c.
+    change (String slash r) with ("" ++ String slash r) in O. rewrite split_app_slash in O. exact (okl_app_r _ _ O).
+  Qed.
+
+  Lemma okl_split_join : forall L, okl L -> Forall (fun s => no_slash s = true) L -> okl (split_slash (join_slash L)).
+  Proof.
+    intros L O N. destruct L as [|a L'].
+    - simpl. apply okl_one. exact bad_empty.
+    - rewrite split_join; [exact O | discriminate | exact N].
+  Qed.
+
+  Lemma filter_keep_props : forall S, okl S -> Forall (fun s => no_slash s = true) S ->
+    okl (filter keep S) /\ Forall (fun s => no_slash s = true) (filter keep S).
+  Proof.
+    intros S O N. split.
+    - intros s Hs. apply filter_In in Hs. apply O. exact (proj1 Hs).
+    - apply Forall_forall. intros s Hs. apply filter_In in Hs. rewrite Forall_forall in N. apply N. exact (proj1 Hs).
+  Qed.
+
+  Lemma okl_clean_any : forall x, okl (split_slash x) -> okl (split_slash (clean x)).
+  Proof.
+    intros x O.
+    assert (N : Forall (fun s => no_slash s = true) (split_slash x)) by (apply Forall_forall; intros s Hs; exact (split_segs_no_slash _ _ Hs)).
+    destruct (filter_keep_props _ O N) as [OL NL].
+    unfold clean. destruct (starts_with_slash x).
+    - rewrite norm_nodd by (apply okl_nodd; exact O).
+      change ("/" ++ join_slash (filter keep (split_slash x))) with ("" ++ String slash (join_slash (filter keep (split_slash x)))).
+      rewrite split_app_slash. apply okl_app; [apply okl_one; exact bad_empty | apply okl_split_join; assumption].
+    - rewrite norm_nodd by (apply okl_nodd; exact O).
+      destruct (filter keep (split_slash x)) as [|a L'] eqn:EL.
+      + apply okl_one. exact bad_dot.
+      + rewrite <- EL. apply okl_split_join; rewrite EL; assumption.
+  Qed.
+
+  Lemma complete_under : forall b key, good b -> okl (split_slash key) ->
+    under b (fst (complete_dir_name b key) ++ String slash (snd (complete_dir_name b key))).
+  Proof.
+    intros b key G O. unfold complete_dir_name. cbv zeta. cbn [fst snd].
+    (* the entry name *)
+    assert (OE : okl (split_slash (path_base key))).
+    { unfold path_base. destruct (key =? ""); [apply okl_one; exact bad_dot|].
+      destruct (last_nonempty (split_slash key)) as [s|] eqn:EL.
+      - pose proof (last_nonempty_in _ _ EL) as Hin.
+        rewrite (no_slash_split s (split_segs_no_slash _ _ Hin)). apply okl_one. apply O. exact Hin.
+      - simpl. intros s [E|[E|[]]]; subst s; exact bad_empty. }
+    (* the directory part *)
+    assert (OD : okl (split_slash (path_dir key))).
+    { unfold path_dir. destruct (rcut_slash key) as [[d0 n]|] eqn:R; [|apply okl_one; exact bad_dot].
+      apply okl_clean_any. change (d0 ++ "/") with (d0 ++ String slash "").
+      rewrite split_app_slash. pose proof (rcut_split _ _ _ R) as S. rewrite S in O.
+      apply okl_app; [exact (okl_app_l _ _ O) | apply okl_one; exact bad_empty]. }
+    set (dd := trim_leading_slash (if path_dir key =? "." then "" else path_dir key)).
+    assert (ODD : okl (split_slash dd)).
+    { unfold dd. apply okl_trim. destruct (path_dir key =? "."); [apply okl_one; exact bad_empty | exact OD]. }
+    assert (UX : under b (bucket_dir b ++ "/" ++ dd)) by (apply under_opath; assumption).
+    apply under_app; [|exact OE].
+    destruct (ends_with_slash (bucket_dir b ++ "/" ++ dd)) eqn:EE; [|exact UX].
+    pose proof (strip_one_spec _ EE) as SS.
+    destruct UX as [C [E OC]].
+    assert (E' := E). change (bucket_dir b ++ "/" ++ dd) with (bucket_dir b ++ String slash dd) in E'.
+    rewrite (opath_split b dd G) in E'. inversion E'; subst C.
+    rewrite SS in E. change (strip_one_trailing_slash (bucket_dir b ++ "/" ++ dd) ++ "/")
+      with (strip_one_trailing_slash (bucket_dir b ++ "/" ++ dd) ++ String slash "") in E.
+    rewrite split_app_slash in E. simpl (split_slash "") in E.
+    change ("" :: "buckets" :: b :: split_slash dd)%list with (["" ; "buckets"; b] ++ split_slash dd)%list in E.
+    rewrite (app_removelast_last "" (split_nonempty dd)) in E. rewrite app_assoc in E.
+    apply app_inj_tail in E. destruct E as [E1 _].
+    exists (removelast (split_slash dd)). split; [exact E1 | apply okl_removelast; exact ODD].
+  Qed.
+
+  Definition mp_hyp (q : req) : Prop :=
+    okl (split_slash (q_upload q)) /\
+    okl (split_slash (dec1 (uploads_dir (q_bucket q) ++ "/" ++ q_upload q ++ "/" ++ q_part q))).
+
+  Hypothesis bad_dotuploads : bad ".uploads" = false.
+  Hypothesis bad_uuid : bad "UUID" = false.
+
+  Lemma under_uploads : forall b, good b -> under b (uploads_dir b).
+  Proof.
+    intros b G. unfold uploads_dir. change (bucket_dir b ++ "/.uploads") with (bucket_dir b ++ String slash ".uploads").
+    apply under_opath; [exact G | apply okl_one; exact bad_dotuploads].
+  Qed.
+
+  Lemma no_pct_uploads : forall b, no_pct b = true -> no_pct (uploads_dir b) = true.
+  Proof. intros b H. unfold uploads_dir. apply no_pct_app; [apply no_pct_bucket_dir; exact H | reflexivity]. Qed.
+
+  Lemma part_path_cok : forall b u p dp, good b ->
+    okl (split_slash (dec1 (uploads_dir b ++ "/" ++ u ++ "/" ++ p))) ->
+    pct_decode (uploads_dir b ++ "/" ++ u ++ "/" ++ p) = Some dp ->
+    Forall (cok b) (http_calls MPut dp).
+  Proof.
+    intros b u p dp G O D. apply http_calls_cok.
+    unfold dec1 in O. rewrite D in O.
+    destruct (good_spec b G) as [_ [_ [_ [_ NP]]]].
+    exact (decode_under b (uploads_dir b) (u ++ "/" ++ p) dp G (under_uploads b G) (no_pct_uploads b NP) D O).
+  Qed.
+
+  Lemma calls_multipart_cok : forall fx q, good (q_bucket q) -> bad (q_bucket q) = false ->
+    object_route (q_route q) = false -> obj_hyp q -> mp_hyp q -> Forall cokc (calls fx q).
+  Proof.
+    intros fx q G Bb OR [HO [HOD [HS HK]]] [HU HUD].
+    destruct (norm_object_form (q_object q) HO) as [k [Ek Ok]].
+    pose proof (under_uploads (q_bucket q) G) as UU.
+    unfold calls. rewrite Ek in *.
+    destruct (q_route q) eqn:ER; try discriminate OR.
+    - (* RCopyPart *)
+      fold (src_bucket q).
+      destruct (src_bucket_object (match pct_decode (q_src q) with Some s => s | None => q_src q end)) as [sb so] eqn:ES.
+      assert (Esb : src_bucket q = sb) by (unfold src_bucket, dec1; rewrite ES; reflexivity).
+      assert (Esp : src_path q = bucket_dir sb ++ so) by (unfold src_path, dec1; rewrite ES; reflexivity).
+      destruct (sb =? "") eqn:E1; [constructor|].
+      destruct (pct_decode (bucket_dir sb ++ so)) as [sp|] eqn:D1; [|constructor].
+      apply Forall_app. split.
+      + rewrite <- Esb. apply (copy_src_cok q sp HS); [rewrite Esb; exact E1 | rewrite Esp; exact D1].
+      + destruct (http_get_ok fx sp); [|constructor].
+        destruct (pct_decode (uploads_dir (q_bucket q) ++ "/" ++ q_upload q ++ "/" ++ q_part q)) as [dp|] eqn:D2; [|constructor].
+        apply within_forall. exact (part_path_cok _ _ _ dp G HUD D2).
+    - (* RNewUpload *)
+      apply within_forall. constructor; [|constructor]. unfold cok, effective. left.
+      apply under_app; [exact UU | apply okl_one; exact bad_uuid].
+    - (* RPutPart *)
+      apply within_forall. constructor; [apply lookup_cok; assumption|].
+      destruct (is_dir_at fx _); [|constructor].
+      destruct (pct_decode (uploads_dir (q_bucket q) ++ "/" ++ q_upload q ++ "/" ++ q_part q)) as [dp|] eqn:D2; [|constructor].
+      exact (part_path_cok _ _ _ dp G HUD D2).
+    - (* RComplete *)
+      apply within_forall.
+      assert (UD : under (q_bucket q) (uploads_dir (q_bucket q) ++ "/" ++ q_upload q)) by (apply under_app; assumption).
+      constructor; [unfold cok, effective; left; exact UD|].
+      destruct (fx_has_children fx _); [|constructor].
+      destruct (dir_and_name (uploads_dir (q_bucket q) ++ "/" ++ q_upload q)) as [ld ln] eqn:DN.
+      assert (SU : split_slash (uploads_dir (q_bucket q) ++ "/" ++ q_upload q) =
+                   ("" :: "buckets" :: q_bucket q :: (".uploads" :: split_slash (q_upload q)))%list).
+      { change (uploads_dir (q_bucket q) ++ "/" ++ q_upload q) with (uploads_dir (q_bucket q) ++ String slash (q_upload q)).
+        rewrite split_app_slash. unfold uploads_dir.
+        change (bucket_dir (q_bucket q) ++ "/.uploads") with (bucket_dir (q_bucket q) ++ String slash ".uploads").
+        rewrite (opath_split (q_bucket q) ".uploads" G). reflexivity. }
+      assert (OC : okl (".uploads" :: split_slash (q_upload q))).
+      { intros s [E|Hs]; [subst s; exact bad_dotuploads | apply HU; exact Hs]. }
+      destruct (dn_under (q_bucket q) _ _ SU ltac:(discriminate) OC) as [Ud [On _]].
+      rewrite DN in Ud, On. simpl in Ud, On.
+      assert (Nn : no_slash ln = true).
+      { unfold dir_and_name in DN. destruct (rcut_slash (uploads_dir (q_bucket q) ++ "/" ++ q_upload q)) as [[d0 n]|] eqn:R.
+        - destruct (rcut_slash_spec _ _ _ R) as [_ N]. destruct (d0 =? ""); inversion DN; subst; exact N.
+        - inversion DN. reflexivity. }
+      constructor; [apply lookup_cok; [exact Ud | rewrite (no_slash_split _ Nn); exact On]|].
+      destruct (exists_at fx _); [|constructor].
+      destruct (complete_dir_name (q_bucket q) (trim_leading_slash (String slash k))) as [d n] eqn:CD.
+      pose proof (complete_under (q_bucket q) (trim_leading_slash (String slash k)) G) as CU.
+      rewrite CD in CU. simpl in CU.
+      constructor; [unfold cok, effective; left; apply CU; change (trim_leading_slash (String slash k)) with k; exact Ok|].
+      destruct (create_file_ok fx d n); [|constructor].
+      constructor; [apply delete_cok; assumption | constructor].
+    - (* RAbort *)
+      apply within_forall. constructor; [apply lookup_cok; assumption|].
+      destruct (is_dir_at fx _); [|constructor].
+      constructor; [apply delete_cok; assumption | constructor].
+    - (* RListParts *)
+      apply within_forall. constructor; [|constructor]. unfold cok, effective. left.
+      apply under_app; assumption.
+  Qed.
 End Under.
+
+(* ---------- instance 1: ".." is the only forbidden segment: containment ---------- *)
+
+Definition bad_dd (s : string) : bool := s =? "..".
+
+Lemma has_seg_okl : forall x s, has_seg x s = false -> forall y, In y (split_slash s) -> (y =? x) = false.
+Proof.
+  intros x s H y Hy. unfold has_seg in H.
+  destruct (y =? x) eqn:E; [|reflexivity]. apply str_eqb_true in E. subst y.
+  assert (existsb (String.eqb x) (split_slash s) = true).
+  { apply existsb_exists. exists x. split; [exact Hy | apply String.eqb_refl]. }
+  rewrite H in H0. discriminate.
+Qed.
+
+Lemma okl_dd_of : forall s, has_dotdot s = false -> okl bad_dd (split_slash s).
+Proof. intros s H y Hy. unfold bad_dd. exact (has_seg_okl ".." s H y Hy). Qed.
+
+Lemma existsb_app_false : forall A (f : A -> bool) l1 l2, existsb f (l1 ++ l2) = false -> existsb f l1 = false /\ existsb f l2 = false.
+Proof. intros A f l1 l2 H. rewrite existsb_app in H. apply orb_false_iff in H. exact H. Qed.
+
+Lemma existsb_false_in : forall A (f : A -> bool) l x, existsb f l = false -> In x l -> f x = false.
+Proof.
+  intros A f l x H Hx. destruct (f x) eqn:E; [|reflexivity].
+  assert (existsb f l = true) by (apply existsb_exists; exists x; split; assumption). rewrite H in H0. discriminate.
+Qed.
+
+Lemma good_of_bad_bucket : forall b, bad_bucket b = false -> good b.
+Proof. intros b H. exact H. Qed.
+
+Lemma hyps_of_trigger : forall (bad : string -> bool) q,
+  (forall s, In s (obj_paths q) -> okl bad (split_slash s)) ->
+  ((q_src q =? "") = false -> bad_bucket (src_bucket q) = false) ->
+  obj_hyp bad q.
+Proof.
+  intros bad q H HB. unfold obj_paths in H. repeat split.
+  - apply H. left. reflexivity.
+  - apply H. right. left. reflexivity.
+  - apply HB. apply String.eqb_neq. exact H0.
+  - apply H. right. right. apply in_or_app. left.
+    destruct (q_src q =? "") eqn:E; [apply str_eqb_true in E; contradiction | left; reflexivity].
+  - intros k Hk. apply H. right. right. apply in_or_app. right. exact Hk.
+Qed.
+
+Lemma cok_contained : forall b c, good b -> cok bad_dd b c -> call_contained (b, c) = true.
+Proof.
+  intros b c G H. unfold call_contained. simpl. unfold cok in H.
+  destruct (effective c) as [e|]; [|reflexivity].
+  destruct H as [U|[X [U [E|E]]]].
+  - exact (under_contained bad_dd eq_refl b e G U).
+  - subst e. rewrite (contained_clean b X (under_rooted bad_dd b X U)). exact (under_contained bad_dd eq_refl b X G U).
+  - subst e. rewrite (contained_mux_clean b X (under_rooted bad_dd b X U)). exact (under_contained bad_dd eq_refl b X G U).
+Qed.
+
+Lemma src_good : forall q, req_dotdot q = false -> (q_src q =? "") = false -> bad_bucket (src_bucket q) = false.
+Proof.
+  intros q H E. unfold req_dotdot in H. apply orb_false_iff in H. destruct H as [_ H].
+  rewrite E in H. simpl in H. exact H.
+Qed.
+
+Lemma within_ctx : forall b c b0 l, In (b, c) (within b0 l) -> b = b0.
+Proof. intros b c b0 l H. unfold within in H. apply in_map_iff in H. destruct H as [x [E _]]. inversion E. reflexivity. Qed.
+
+(* the bucket a call is attributed to: the request's bucket, or the (non-empty) copy source bucket *)
+Lemma calls_ctx : forall fx q b c, In (b, c) (calls fx q) ->
+  b = q_bucket q \/ (b = src_bucket q /\ (src_bucket q =? "") = false).
+Proof.
+  intros fx q b c H. unfold calls in H.
+  destruct (q_route q).
+  - destruct (ends_with_slash _); left; exact (within_ctx _ _ _ _ H).
+  - destruct (ends_with_slash _); [destruct H | left; exact (within_ctx _ _ _ _ H)].
+  - left; exact (within_ctx _ _ _ _ H).
+  - left; exact (within_ctx _ _ _ _ H).
+  - left; exact (within_ctx _ _ _ _ H).
+  - destruct (src_bucket_object _) as [sb so] eqn:ES.
+    assert (Esb : src_bucket q = sb) by (unfold src_bucket, dec1; rewrite ES; reflexivity).
+    match type of H with In _ (if ?c then _ else _) => destruct c end.
+    + destruct (dir_and_name _) as [d n]. left; exact (within_ctx _ _ _ _ H).
+    + destruct (sb =? "") eqn:E1; [destruct H|].
+      match type of H with In _ (if ?c then _ else _) => destruct c end; [destruct H|].
+      destruct (pct_decode (bucket_dir sb ++ so)); [|destruct H].
+      apply in_app_or in H. destruct H as [H|H].
+      * right. rewrite Esb. split; [exact (within_ctx _ _ _ _ H) | exact E1].
+      * destruct (pct_decode (bucket_dir (q_bucket q) ++ norm_object (q_object q))); [left; exact (within_ctx _ _ _ _ H) | destruct H].
+  - destruct (src_bucket_object _) as [sb so] eqn:ES.
+    assert (Esb : src_bucket q = sb) by (unfold src_bucket, dec1; rewrite ES; reflexivity).
+    destruct (sb =? "") eqn:E1; [destruct H|].
+    destruct (pct_decode (bucket_dir sb ++ so)); [|destruct H].
+    apply in_app_or in H. destruct H as [H|H].
+    + right. rewrite Esb. split; [exact (within_ctx _ _ _ _ H) | exact E1].
+    + destruct (http_get_ok _ _); [|destruct H]. destruct (pct_decode (uploads_dir _ ++ _)); [left; exact (within_ctx _ _ _ _ H) | destruct H].
+  - left; exact (within_ctx _ _ _ _ H).
+  - left; exact (within_ctx _ _ _ _ H).
+  - left; exact (within_ctx _ _ _ _ H).
+  - left; exact (within_ctx _ _ _ _ H).
+  - left; exact (within_ctx _ _ _ _ H).
+  - destruct (dir_and_name _) as [d n]. left; exact (within_ctx _ _ _ _ H).
+  - destruct (dir_and_name _) as [d n]. left; exact (within_ctx _ _ _ _ H).
+  - destruct (dir_and_name _) as [d n]. left; exact (within_ctx _ _ _ _ H).
+Qed.
+
+Lemma ctx_good : forall fx q b c, bad_bucket (q_bucket q) = false -> req_dotdot q = false ->
+  In (b, c) (calls fx q) -> good b.
+Proof.
+  intros fx q b c GB T H. destruct (calls_ctx fx q b c H) as [E|[E NE]]; subst b; [exact GB|].
+  apply (src_good q T). destruct (q_src q =? "") eqn:EQ; [|reflexivity].
+  apply str_eqb_true in EQ. unfold src_bucket, dec1 in NE. rewrite EQ in NE. discriminate.
+Qed.
+
+Theorem contained_partial : forall fx q,
+  bad_bucket (q_bucket q) = false -> req_dotdot q = false -> all_contained fx q = true.
+Proof.
+  intros fx q GB T.
+  assert (G : good (q_bucket q)) by exact GB.
+  assert (Bb : bad_dd (q_bucket q) = false).
+  { destruct (good_spec (q_bucket q) G) as [_ [_ [N _]]]. unfold bad_dd. apply String.eqb_neq. exact N. }
+  pose proof T as T0. unfold req_dotdot in T. apply orb_false_iff in T. destruct T as [T1 T2].
+  apply existsb_app_false in T1. destruct T1 as [TO TM].
+  assert (HO : obj_hyp bad_dd q).
+  { apply hyps_of_trigger.
+    - intros s Hs. apply okl_dd_of. exact (existsb_false_in _ _ _ s TO Hs).
+    - intros E. exact (src_good q T0 E). }
+  assert (HM : mp_hyp bad_dd q).
+  { unfold mp_paths in TM. split.
+    - apply okl_dd_of. apply (existsb_false_in _ _ _ _ TM). left. reflexivity.
+    - apply okl_dd_of. apply (existsb_false_in _ _ _ _ TM). right. left. reflexivity. }
+  assert (F : Forall (cokc bad_dd) (calls fx q)).
+  { destruct (object_route (q_route q)) eqn:OR.
+    - exact (calls_object_cok bad_dd eq_refl eq_refl eq_refl fx q G Bb OR HO).
+    - exact (calls_multipart_cok bad_dd eq_refl eq_refl eq_refl eq_refl eq_refl fx q G Bb OR HO HM). }
+  unfold all_contained. apply andb_true_iff. split.
+  - apply forallb_forall. intros [b c] Hc. rewrite Forall_forall in F. pose proof (F _ Hc) as K. unfold cokc in K. simpl in K.
+    exact (cok_contained b c (ctx_good fx q b c GB T0 Hc) K).
+  - apply forallb_forall. intros c Hc.
+    assert (HK : forall k, In k (q_keys q) -> okl bad_dd (split_slash k)) by (destruct HO as [_ [_ [_ HK]]]; exact HK).
+    pose proof (purge_candidates_cok bad_dd (q_bucket q) (q_keys q) G HK) as P.
+    rewrite Forall_forall in P. exact (cok_contained _ c G (P c Hc)).
+Qed.
+
+(* ---------- instance 2: ".." and ".uploads" forbidden: the multipart area ---------- *)
+
+Definition bad_up (s : string) : bool := (s =? "..") || (s =? ".uploads").
+
+Lemma okl_up_of : forall s, has_dotdot s = false -> has_seg ".uploads" s = false -> okl bad_up (split_slash s).
+Proof.
+  intros s H1 H2 y Hy. unfold bad_up.
+  rewrite (has_seg_okl ".." s H1 y Hy). rewrite (has_seg_okl ".uploads" s H2 y Hy). reflexivity.
+Qed.
+
+Lemma split_clean_under : forall bad b X, bad ".." = true -> good b -> under bad b X ->
+  exists C', split_slash (clean X) = ("" :: "buckets" :: b :: C')%list /\ okl bad C'.
+Proof.
+  intros bad b X BD G U.
+  destruct (rsegs_under bad BD b X G U) as [C' [E [O F]]]. exists C'. split; [|exact O].
+  rewrite (clean_rooted X (under_rooted bad b X U)). rewrite E.
+  change ("/" ++ join_slash ("buckets" :: b :: C')) with ("" ++ String slash (join_slash ("buckets" :: b :: C'))).
+  rewrite split_app_slash. rewrite split_join; [reflexivity | discriminate |].
+  pose proof (rsegs_no_slash X) as NS. rewrite E in NS. exact NS.
+Qed.
+
+Lemma split_uploads_dir : forall b, good b -> split_slash (clean (uploads_dir b)) = ["" ; "buckets"; b; ".uploads"].
+Proof.
+  intros b G.
+  assert (U : under bad_dd b (uploads_dir b)) by (apply (under_uploads bad_dd eq_refl); exact G).
+  destruct (good_spec b G) as [B1 [B2 [B3 [N _]]]].
+  rewrite (clean_rooted _ (under_rooted bad_dd b _ U)).
+  assert (R : rsegs (uploads_dir b) = ["buckets"; b; ".uploads"]).
+  { unfold rsegs, uploads_dir. change (bucket_dir b ++ "/.uploads") with (bucket_dir b ++ String slash ".uploads").
+    rewrite split_app_slash. rewrite (split_bucket_dir b N). rewrite norm_nodd.
+    - simpl. unfold keep. simpl.
+      destruct (b =? "") eqn:E1; [apply str_eqb_true in E1; contradiction|].
+      destruct (b =? ".") eqn:E2; [apply str_eqb_true in E2; contradiction|]. reflexivity.
+    - intros s [Hs|[Hs|[Hs|[Hs|[]]]]]; subst s; try discriminate. exact B3. }
+  rewrite R.
+  change ("/" ++ join_slash ["buckets"; b; ".uploads"]) with ("" ++ String slash (join_slash ["buckets"; b; ".uploads"])).
+  rewrite split_app_slash. rewrite split_join; [reflexivity | discriminate |].
+  repeat constructor. exact N.
+Qed.
+
+Lemma under_not_uploads : forall b X, good b -> under bad_up b X ->
+  inside (clean (uploads_dir b)) (clean X) = false.
+Proof.
+  intros b X G U. destruct (split_clean_under bad_up b X eq_refl G U) as [C' [E O]].
+  pose proof (split_uploads_dir b G) as SU.
+  unfold inside. apply orb_false_iff. split.
+  - destruct (clean X =? clean (uploads_dir b)) eqn:EQ; [|reflexivity].
+    apply str_eqb_true in EQ. rewrite EQ, SU in E. inversion E; subst C'.
+    assert (bad_up ".uploads" = false) by (apply O; left; reflexivity). discriminate.
+  - destruct (String.prefix (clean (uploads_dir b) ++ "/") (clean X)) eqn:EP; [|reflexivity].
+    destruct (prefix_exists _ _ EP) as [z Ez].
+    rewrite Ez in E. rewrite append_assoc in E. change ("/" ++ z) with (String slash z) in E.
+    rewrite split_app_slash, SU in E. inversion E; subst C'.
+    assert (bad_up ".uploads" = false) by (apply O; left; reflexivity). discriminate.
+Qed.
+
+Lemma cok_not_uploads : forall b c, good b -> cok bad_up b c -> call_in_uploads (b, c) = false.
+Proof.
+  intros b c G H. unfold call_in_uploads. simpl. unfold cok in H.
+  destruct (effective c) as [e|]; [|reflexivity].
+  destruct H as [U|[X [U [E|E]]]].
+  - exact (under_not_uploads b e G U).
+  - subst e. rewrite (clean_idem X (under_rooted bad_up b X U)). exact (under_not_uploads b X G U).
+  - subst e. rewrite (clean_mux_clean X (under_rooted bad_up b X U)). exact (under_not_uploads b X G U).
+Qed.
+
+Theorem uploads_hidden_partial : forall fx q,
+  bad_bucket (q_bucket q) = false -> q_bucket q <> ".uploads" ->
+  req_dotdot q = false -> req_uploads_seg q = false -> uploads_hidden fx q = true.
+Proof.
+  intros fx q GB NU T TU. unfold uploads_hidden.
+  destruct (object_route (q_route q)) eqn:OR; [|reflexivity]. simpl.
+  apply negb_true_iff.
+  assert (G : good (q_bucket q)) by exact GB.
+  assert (Bb : bad_up (q_bucket q) = false).
+  { destruct (good_spec (q_bucket q) G) as [_ [_ [N _]]]. unfold bad_up.
+    apply orb_false_iff. split; apply String.eqb_neq; assumption. }
+  pose proof T as T0. unfold req_dotdot in T. apply orb_false_iff in T. destruct T as [T1 T2].
+  apply existsb_app_false in T1. destruct T1 as [TO TM].
+  unfold req_uploads_seg in TU. rewrite OR in TU. rewrite andb_true_l in TU.
+  assert (HO : obj_hyp bad_up q).
+  { apply hyps_of_trigger.
+    - intros s Hs. apply okl_up_of; [exact (existsb_false_in _ _ _ s TO Hs) | exact (existsb_false_in _ _ _ s TU Hs)].
+    - intros E. exact (src_good q T0 E). }
+  pose proof (calls_object_cok bad_up eq_refl eq_refl eq_refl fx q G Bb OR HO) as F.
+  destruct (existsb call_in_uploads (calls fx q)) eqn:EX; [|reflexivity].
+  apply existsb_exists in EX. destruct EX as [[b c] [Hc Hu]].
+  rewrite Forall_forall in F. pose proof (F _ Hc) as K. unfold cokc in K. simpl in K.
+  rewrite (cok_not_uploads b c (ctx_good fx q b c GB T0 Hc) K) in Hu. discriminate.
+Qed.
+
+(* ---------- the cleaning lemma in its plain form ---------- *)
+
+Theorem clean_stays_under : forall b rest,
+  bad_bucket b = false -> has_dotdot rest = false -> contained b (bucket_dir b ++ "/" ++ rest) = true.
+Proof.
+  intros b rest G H. apply (under_contained bad_dd eq_refl b _ G).
+  apply (under_opath bad_dd); [exact G | apply okl_dd_of; exact H].
+Qed.
+
+Theorem clean_idempotent : forall p, starts_with_slash p = true -> clean (clean p) = clean p.
+Proof. exact clean_idem. Qed.
+
+Theorem clean_rooted_no_dots : forall p, starts_with_slash p = true ->
+  forall s, In s (norm_segs true (split_slash p)) -> s <> "" /\ s <> "." /\ s <> "..".
+Proof.
+  intros p _ s Hs. pose proof (norm_rooted_clean (split_slash p)) as F. rewrite Forall_forall in F. exact (F s Hs).
+Qed.
+
+(* ---------- refutations: concrete escaping requests ---------- *)
+
+Definition fx_demo : fixture :=
+  [ ("/", true); ("/buckets", true); ("/buckets/b", true); ("/buckets/b/obj", false);
+    ("/buckets/b/.uploads", true); ("/buckets/b/.uploads/u1", true); ("/buckets/b/.uploads/u1/0001.part", false);
+    ("/buckets/other", true); ("/buckets/other/obj", false) ].
+
+Definition rq (r : route) (object upload src : string) (keys : list string) : req :=
+  mk_req r "b" object upload "0001.part" src keys.
+
+(* GET /b/x/../../other/obj is served from /buckets/other/obj *)
+Definition esc_get : req := rq RGet "x/../../other/obj" "" "" [].
+(* POST /b?delete with <Key>x/../../other/obj</Key> deletes /buckets/other/obj *)
+Definition esc_batch : req := rq RBatchDelete "k" "" "" ["x/../../other/obj"].
+(* DELETE /b/k?uploadId=../../other removes the whole bucket "other" *)
+Definition esc_abort : req := rq RAbort "k" "../../other" "" [].
+(* GET /b/x/../../other/obj?tagging reads the other bucket's tags *)
+Definition esc_tag : req := rq RGetTag "x/../../other/obj" "" "" [].
+(* PUT /b/new with X-Amz-Copy-Source: b/../other/obj copies from the other bucket *)
+Definition esc_copy : req := rq (RCopy false) "new" "" "b/../other/obj" [].
+(* GET /b/.uploads/u1/0001.part addresses a part of an upload in progress *)
+Definition up_get : req := rq RGet ".uploads/u1/0001.part" "" "" [].
+
+Theorem contained_refuted : exists fx q,
+  bad_bucket (q_bucket q) = false /\ all_contained fx q = false /\
+  existsb (fun c => match effective (snd c) with Some e => clean e =? "/buckets/other/obj" | None => false end) (calls fx q) = true.
+Proof. exists fx_demo, esc_get. vm_compute. repeat split; reflexivity. Qed.
+
+Theorem contained_refuted_all :
+  all_contained fx_demo esc_get = false /\ all_contained fx_demo esc_batch = false /\
+  all_contained fx_demo esc_abort = false /\ all_contained fx_demo esc_tag = false /\
+  all_contained fx_demo esc_copy = false.
+Proof. vm_compute. repeat split; reflexivity. Qed.
+
+Theorem uploads_hidden_refuted : exists fx q,
+  bad_bucket (q_bucket q) = false /\ req_dotdot q = false /\ object_route (q_route q) = true /\
+  uploads_hidden fx q = false.
+Proof. exists fx_demo, up_get. vm_compute. repeat split; reflexivity. Qed.
+
+(* non-vacuity: an ordinary request satisfies the hypotheses and produces calls *)
+Example partial_nonvacuous :
+  let q := rq RPutTag "x/./y//z" "" "" [] in
+  bad_bucket (q_bucket q) = false /\ req_dotdot q = false /\ req_uploads_seg q = false /\
+  map snd (calls fx_demo q) = [GLookup "/buckets/b/x/./y/" "z"] /\
+  all_contained fx_demo q = true /\ uploads_hidden fx_demo q = true.
+Proof. vm_compute. repeat split; reflexivity. Qed.
